@@ -210,18 +210,18 @@ fn watchdog() {
 }
 
 /// the real code (CASE is odd while the call is running)
-fn real(tab: &[Strength], l: &[Seat]) -> Option<Vec<i16>> {
+fn real(strengths: &[Strength], l: &[Seat]) -> Option<Vec<i16>> {
     if let Ok(mut g) = CURRENT.lock() {
         g.clear();
         g.extend_from_slice(l);
     }
     CASE.fetch_add(1, Ordering::SeqCst);
-    let r = real_call(tab, l);
+    let r = real_call(strengths, l);
     CASE.fetch_add(1, Ordering::SeqCst);
     r
 }
-fn real_call(tab: &[Strength], l: &[Seat]) -> Option<Vec<i16>> {
-    let ledger: Vec<Settlement> = l.iter().map(|p| Settlement::from((p.risked, status_of(p.status), tab[p.strength as usize]))).collect();
+fn real_call(strengths: &[Strength], l: &[Seat]) -> Option<Vec<i16>> {
+    let ledger: Vec<Settlement> = l.iter().zip(strengths).map(|(p, s)| Settlement::from((p.risked, status_of(p.status), *s))).collect();
     catch(move || Showdown::from(ledger).settle().iter().map(|s| s.reward).collect::<Vec<i16>>())
 }
 
@@ -337,6 +337,7 @@ fn oracle(l: &[Seat], got: &[i16]) -> Vec<(&'static str, String, String)> {
 struct Ctx {
     tabs: Vec<Vec<Vec<Strength>>>,
     cycle: usize,
+    buf: Vec<Strength>,
     run: Run,
 }
 
@@ -345,8 +346,6 @@ impl Ctx {
     /// `emb`: which embedding of the abstract levels into real strengths (None: next in the cycle)
     fn case(&mut self, l: &[Seat], tag: &str, emb: Option<usize>) {
         let op = op_of(l);
-        let ok = valid(l);
-        self.run.evaluations += 1;
         let e = match emb {
             Some(e) => e,
             None => {
@@ -356,7 +355,36 @@ impl Ctx {
         };
         let levels = l.iter().map(|p| p.strength as usize + 1).max().unwrap_or(0);
         self.run.count(&format!("embedding/{}", EMBEDDINGS[e]));
-        let res = real(&self.tabs[e][levels], l);
+        self.buf.clear();
+        for p in l {
+            self.buf.push(self.tabs[e][levels][p.strength as usize]);
+        }
+        let strengths = std::mem::take(&mut self.buf);
+        self.case_with(l, tag, &strengths, op, "");
+        self.buf = strengths;
+    }
+
+    /// `strengths[i]` is the real `Strength` of seat i; `l[i].strength` its abstract level (what
+    /// the model and the oracle see). `origin` is appended to failure inputs (the hands, if any).
+    fn case_with(&mut self, l: &[Seat], tag: &str, strengths: &[Strength], op: String, origin: &str) {
+        let ok = valid(l);
+        // the comparator the engine relies on (`<`, `max`, `==`) must be consistent on the
+        // strengths in play, and must order them like the abstract levels
+        for i in 0..l.len() {
+            for j in i + 1..l.len() {
+                let (a, b) = (strengths[i], strengths[j]);
+                if (a.cmp(&b) == std::cmp::Ordering::Equal) != (a == b) || (b.cmp(&a) == std::cmp::Ordering::Equal) != (b == a) {
+                    self.run.fail("strength-ord-eq-inconsistent", &format!("{op}{origin}"), "cmp == Equal iff ==", &format!("seats {i},{j}: cmp {:?}, == {}", a.cmp(&b), a == b));
+                }
+                if a.cmp(&b) != l[i].strength.cmp(&l[j].strength) {
+                    self.run.fail("strength-order-differs-from-rules", &format!("{op}{origin}"), &format!("seats {i},{j}: {:?}", l[i].strength.cmp(&l[j].strength)), &format!("{:?}", a.cmp(&b)));
+                }
+            }
+        }
+        self.run.evaluations += 1;
+        let res = real(strengths, l);
+        let origin_op = format!("{op}{origin}");
+        let op = &op;
         match &res {
             None => self.run.line(&op, "panic"),
             Some(r) => {
@@ -374,10 +402,10 @@ impl Ctx {
         self.run.count(&format!("{tag}/players={}", l.len()));
         self.run.spec_checked += 1;
         match res {
-            None => self.run.fail("settle-panics", &op, "a payout", "panic"),
+            None => self.run.fail("settle-panics", &origin_op, "a payout", "panic"),
             Some(r) => {
                 for (class, want, got) in oracle(l, &r) {
-                    self.run.fail(class, &op, &want, &format!("{got} (rewards {r:?})"));
+                    self.run.fail(class, &origin_op, &want, &format!("{got} (rewards {r:?})"));
                 }
                 // non-trivial: at least two layers or a tie with an odd chip
                 let ls = layers(l);
@@ -471,6 +499,101 @@ fn random_ledger(rng: &mut Rng, want_valid: bool) -> Vec<Seat> {
     l
 }
 
+/// showdowns between REAL evaluated hands of the same category that differ only in kickers /
+/// lower cards (and exact ties): the seats' `Strength`s come from the real evaluator, the abstract
+/// levels handed to the model and the oracle come from the rules (`rpharness::poker::best5`,
+/// brute force over the 21 five-card subsets), never from `Strength`'s own comparator.
+const SCENARIOS: [(&str, &str, &[&str]); 10] = [
+    ("flush-same-top-card", "As 9s 4s Jd 3c", &["Ks 2s", "Qs Ts", "8s 7s", "6s 5s", "Kd Kc"]),
+    ("flush-on-board", "As Ks 9s 4s 2s", &["Qs 3d", "Ts 3c", "3h 5d", "6h 7d", "8s 7c"]),
+    ("flush-three-on-board", "Ah Kh Qh 3c 2d", &["Th 4h", "9h 8h", "7h 6h", "5h 2h", "Ac Ad"]),
+    ("pair-kickers", "Ah 7d 5c 9s 2h", &["Ad Kc", "Ac Kd", "As Qd", "Kh Qc", "Jc Js"]),
+    ("two-pair-kicker", "Ah Ad 7c 7s 2h", &["Kc 3d", "Qc 4d", "Kd 5h", "Jc Js", "3c 4h"]),
+    ("quads-kicker", "9c 9d 9h 9s 2h", &["Ac 3d", "Kc 4d", "Ad 5h", "2c 2d", "Qc Jd"]),
+    ("trips-kickers", "8c 8d 8h Ks 2h", &["Ac 3d", "Qc Jd", "Ad 4c", "Qd Tc", "7c 6d"]),
+    ("full-house-second-rank", "Tc Td Th 4s 2h", &["Ac Ad", "Kc Kd", "4c 3d", "4d 5c", "2c 2d"]),
+    ("high-card-kickers", "Ac Jd 8h 5s 2h", &["Kc 9d", "Kd 7c", "Qc 9h", "Kh 9s", "Qd 7h"]),
+    ("straights-and-flushes", "5h 6h 7h Kc 2d", &["8h 9h", "Ah 3h", "Qh 2h", "8c 9d", "4c 8d"]),
+];
+
+fn real_hands(ctx: &mut Ctx, rng: &mut Rng, samples4: u64) {
+    for (name, board, holes) in SCENARIOS.iter() {
+        let b = u64::from(Hand::try_from(*board).expect("board"));
+        assert!(b.count_ones() == 5, "board {board}");
+        let mut seen = b;
+        let mut strengths = vec![];
+        let mut rules = vec![];
+        for h in holes.iter() {
+            let m = u64::from(Hand::try_from(*h).expect("hole"));
+            assert!(m.count_ones() == 2 && m & seen == 0, "hole cards {h} overlap in {name}");
+            seen |= m;
+            strengths.push(Strength::from(Hand::from(b | m)));
+            rules.push(poker::best5(b | m, false));
+        }
+        let mut distinct = rules.clone();
+        distinct.sort();
+        distinct.dedup();
+        let level: Vec<u8> = rules.iter().map(|r| distinct.iter().position(|d| d == r).unwrap() as u8).collect();
+        let k = holes.len();
+        let tag = format!("real-hands/{name}");
+        let mut emit = |ctx: &mut Ctx, who: &[usize], risked: &[i16], status: &[u8]| {
+            let l: Vec<Seat> = (0..who.len()).map(|i| Seat { risked: risked[i], status: status[i], strength: level[who[i]] }).collect();
+            if !valid(&l) {
+                return;
+            }
+            let st: Vec<Strength> = who.iter().map(|&w| strengths[w]).collect();
+            let origin = format!(" # board {board} holes {}", who.iter().map(|&w| holes[w]).collect::<Vec<_>>().join(" / "));
+            let op = op_of(&l);
+            ctx.case_with(&l, &tag, &st, op, &origin);
+        };
+        // every ordered choice of 2 and 3 distinct hands x commitments 1..=3 x statuses (valid ones)
+        for n in 2..=3usize {
+            let combos = 9u64.pow(n as u32);
+            let mut who = vec![0usize; n];
+            let total = (k as u64).pow(n as u32);
+            for code in 0..total {
+                let mut c = code;
+                for w in who.iter_mut() {
+                    *w = (c % k as u64) as usize;
+                    c /= k as u64;
+                }
+                if (0..n).any(|i| (0..i).any(|j| who[i] == who[j])) {
+                    continue;
+                }
+                for rs in 0..combos {
+                    let mut c = rs;
+                    let mut risked = vec![0i16; n];
+                    let mut status = vec![0u8; n];
+                    for i in 0..n {
+                        risked[i] = 1 + (c % 3) as i16;
+                        status[i] = (c / 3 % 3) as u8;
+                        c /= 9;
+                    }
+                    emit(ctx, &who, &risked, &status);
+                }
+            }
+        }
+        // four and five seats: seeded random
+        for _ in 0..samples4 {
+            let n = rng.range(4, k as i64) as usize;
+            let mut pool: Vec<usize> = (0..k).collect();
+            let mut who = vec![];
+            for _ in 0..n {
+                who.push(pool.swap_remove(rng.below(pool.len() as u64) as usize));
+            }
+            let maxc = if rng.chance(1, 2) { 3 } else { 40 };
+            let mut risked: Vec<i16> = (0..n).map(|_| rng.range(1, maxc) as i16).collect();
+            let status: Vec<u8> = (0..n).map(|_| [0u8, 1, 1, 2][rng.below(4) as usize]).collect();
+            if let Some(m) = (0..n).filter(|&i| status[i] != 2).map(|i| risked[i]).max() {
+                for i in 0..n {
+                    risked[i] = if status[i] == 0 { m } else { risked[i].min(m) };
+                }
+            }
+            emit(ctx, &who, &risked, &status);
+        }
+    }
+}
+
 fn main() {
     let a = args();
     let mut rng = Rng::new(a.seed);
@@ -496,12 +619,12 @@ fn main() {
         assert_eq!(classes(&[9, 1, 1, 0, 3]), vec!["merged-layer-payout-differs"]);
         assert!(classes(&[0, 1, 1, 0, 12]).contains(&"paid-above-cap"));
     }
-    let mut ctx = Ctx { tabs, cycle: 0, run: Run::new(&a.out) };
+    let mut ctx = Ctx { tabs, cycle: 0, buf: Vec::new(), run: Run::new(&a.out) };
     ctx.run.notes.push("oracle self-test: 6 wrong payouts of a 5-seat ledger rejected with the expected classes, the textbook payout accepted".into());
     let nrandom: u64 = if a.thorough() { 4_000_000 } else { 200_000 };
     ctx.run.exhaustive = true;
     ctx.run.rule = format!(
-        "exhaustive: every ledger of 1..=4 seats x commitments 0..=4 x {{betting, all-in, folded}} x 3 strength levels that satisfies the property's hypotheses (a contesting seat exists, contesting non-all-in seats hold the largest contesting commitment M, folded seats <= M){}; plus {nrandom} random ledgers of 2..=9 seats, commitments up to 3/9/100/3600, 1..=6 strength levels, valid by construction; ledgers outside the hypotheses (every {}th of the enumeration, 1/8 of the random ones, some with negative commitments) go to the model-correspondence stream only; the abstract strength levels of each ledger are embedded order-isomorphically into real Strength values by one of 5 embeddings (bottom/top = minimal/maximal Strength incl. the ace-high straight flush; kickers-only differences; second-rank-only differences in TwoPair / FullHouse; strengths computed by the real evaluator from 7-card hands with the royal flush on top), cycled through the enumeration and drawn from the seeded Rng for random ledgers, the model sees only the naturals; non-trivial = at least two pot layers or a tie with an odd chip; distinct by the whole ledger",
+        "exhaustive: every ledger of 1..=4 seats x commitments 0..=4 x {{betting, all-in, folded}} x 3 strength levels that satisfies the property's hypotheses (a contesting seat exists, contesting non-all-in seats hold the largest contesting commitment M, folded seats <= M){}; plus {nrandom} random ledgers of 2..=9 seats, commitments up to 3/9/100/3600, 1..=6 strength levels, valid by construction; ledgers outside the hypotheses (every {}th of the enumeration, 1/8 of the random ones, some with negative commitments) go to the model-correspondence stream only; the abstract strength levels of each ledger are embedded order-isomorphically into real Strength values by one of 5 embeddings (bottom/top = minimal/maximal Strength incl. the ace-high straight flush; kickers-only differences; second-rank-only differences in TwoPair / FullHouse; strengths computed by the real evaluator from 7-card hands with the royal flush on top), cycled through the enumeration and drawn from the seeded Rng for random ledgers, the model sees only the naturals; plus showdowns between real evaluated 7-card hands of the same category differing only in kickers / lower cards or exactly tied (10 boards x 5 hole-card pairs: flushes with the same top card, pair / two pair / trips / quads kickers, full-house second rank, high card, straights), every ordered choice of 2..3 hands x commitments 1..=3 x statuses plus seeded random 4..5-seat ledgers, abstract levels ranked by the rules oracle rpharness::poker::best5; on every ledger Strength's cmp/== consistency and agreement with the abstract order are checked; non-trivial = at least two pot layers or a tie with an odd chip; distinct by the whole ledger",
         if a.thorough() { "; and of 5 seats x commitments 0..=3 x 2 strength levels" } else { "" },
         if a.thorough() { 3 } else { 7 },
     );
@@ -545,6 +668,7 @@ fn main() {
             ctx.case(l, "top-strength", Some(e));
         }
     }
+    real_hands(&mut ctx, &mut rng, if a.thorough() { 40_000 } else { 4_000 });
     DONE.store(true, Ordering::SeqCst);
     ctx.run.finish();
 }
